@@ -3,7 +3,7 @@ CONSTANTS
   Mode = "pool"
   Gen = "iter"
   Dev = {}
-  LastBy = "index"
+  LastBy = "identity"
   MaxLines = 3
   MaxDepth = 9
   MaxBlank = 0
